@@ -17,7 +17,12 @@ from pydicom.filereader import dcmread
 from pydicom.tag import BaseTag
 from pydicom.uid import UID
 
-from pynetdicom.dsutils import decode, create_file_meta, encode_file_meta
+from pynetdicom.dsutils import (
+    decode,
+    create_file_meta,
+    encode_file_meta,
+    split_dataset,
+)
 
 if TYPE_CHECKING:  # pragma: no cover
     from pynetdicom.association import Association
@@ -670,6 +675,14 @@ class Event:
                 "The corresponding event is not a C-STORE request and has no "
                 "'Data Set' parameter"
             )
+
+        if isinstance(request._dataset_path, Path):
+            # STORE_RECV_CHUNKED_DATASET: the data set was written to a file
+            #   (after its File Meta Information) rather than kept in memory
+            _, offset = split_dataset(request._dataset_path)
+            with open(request._dataset_path, "rb") as f:
+                f.seek(offset)
+                stream = f.read()
 
         if not include_meta:
             return stream
